@@ -160,7 +160,9 @@ def run_history(names, codes, nval=3, salt=0, readback=True):
         hc = hclass | set(kw.get("extra", ()))
         if not hc:
             return detailed
-        return (detailed[0],) + tuple(detailed[1:3] if detailed[0].endswith("raises") else ()) + ("+".join(sorted(hc)),)
+        # one class for both ways of losing track of an alias (the distinction is kept in the class histogram): a rare
+        # symptom x class combination must not look like a new defect at some other seed
+        return (detailed[0],) + tuple(detailed[1:3] if detailed[0].endswith("raises") else ()) + ("unresolved-overlap-or-alias",)
     const_addrs, sym_offs = set(), {}
     offset = 0
     for idx, name in enumerate(names):
